@@ -24,7 +24,8 @@ RULE = (
     "pulled so far. parse: every delimited stream is delivered up to the end of frame j, for EVERY j, by a raw source (and "
     "by a BufferedReader over it) that raises Stall when asked for an undelivered byte; items obtained before Stall must "
     "equal all events of frames 1..j (flat and grouped, generic; rdflib flat for RDF 1.1 content). "
-    "non-trivial = write case with >=3 frames and a statement contributing >=3 rows; parse case with >=3 frames; "
+    "One generic case in four uses 'fat' statements (quoted triples with all-new IRIs, 10..30 rows each) and frame sizes up "
+    "to 40. non-trivial = write case with >=3 frames and a statement contributing >=3 rows; parse case with >=3 frames; "
     "distinct by case hash (write) / (stream hash, j) (parse)."
 )
 ASSUMPTIONS = [
@@ -43,7 +44,7 @@ def write_case(draw):
     phys = draw(st.sampled_from(["TRIPLES", "QUADS", "GRAPHS"]))
     arity = 3 if phys == "TRIPLES" else 4
     mode = "rdflib" if integration == "rdflib" else "gen"
-    stmts = draw(gen.statement_seq(arity=arity, mode=mode, max_len=14, min_len=1))
+    stmts = draw(gen.statement_seq(arity=arity, mode=mode, max_len=24, min_len=1))
     if phys == "GRAPHS":
         # 1..3 graphs, each a run of consecutive statements, driven through successive GraphStream.graph() calls
         k = draw(st.integers(1, 3))
@@ -53,12 +54,30 @@ def write_case(draw):
         entry = "graph"
     else:
         entry = draw(st.sampled_from(["flat_stream_to_frames", "stream_frames"]))
+    if integration == "generic" and draw(st.integers(0, 3)) == 0:
+        # "fat" statements: quoted triples whose IRIs are all new (fresh namespace and name each), so that one statement
+        # contributes 10..30 rows - more than any fixed small per-statement estimate
+        fat = []
+        for i in range(len(stmts)):
+            def fresh(tag, i=i):
+                return ["iri", "http://ns%d%s.example.org/%s%d" % (i, tag, tag, i)]
+            def q(a, b, c):
+                return ["triple", fresh(a), fresh(b), fresh(c)]
+            shape = draw(st.integers(0, 2))
+            if shape == 0:
+                st3 = [q("a", "b", "c"), fresh("d"), q("e", "f", "g")]
+            elif shape == 1:
+                st3 = [["triple", q("a", "b", "c"), fresh("d"), fresh("e")], fresh("f"), q("g", "h", "i")]
+            else:
+                st3 = [fresh("a"), fresh("b"), ["lit", "v%d" % i, None, None]]
+            fat.append(st3 + stmts[i][3:])
+        stmts = fat
     how = draw(st.sampled_from(["flat_logical", "explicit_flow", "unspecified_logical"]))
     if entry == "flat_stream_to_frames" and how == "explicit_flow" and draw(st.booleans()):
         how = "flat_logical"
     flat = 1 if phys == "TRIPLES" else 2
     case = {"kind": "write", "integration": integration, "phys": phys, "entry": entry, "how": how,
-            "frame_size": draw(st.sampled_from([1, 2, 3, 4, 5, 7])), "statements": stmts, "delimited": True,
+            "frame_size": draw(st.sampled_from([1, 2, 3, 4, 5, 7, 11, 16, 40])), "statements": stmts, "delimited": True,
             "preset": draw(gen.preset_for(stmts)),
             "params": {"generalized": integration == "generic", "rdf_star": integration == "generic", "stream_name": ""}}
     case["logical"] = 0 if how == "unspecified_logical" else flat
